@@ -11,7 +11,9 @@ package main
 //   (a) f.Type concrete scalar                       → constructor assignment f := value
 //   (b) f required, not nullable, resolve*(f.Type)
 //       concrete scalar                              → constructor assignment with that value
-//       (optional or nullable: statement silent → constant or option, nothing else)
+//       (optional or nullable: the value is not fixed by the schema → an option, rule d;
+//        A.2's "accept either" lenience was dropped: the statement allows a constant only
+//        "when the schema fixes the field's value")
 //   (c) f.Type constant reference                    → nothing
 //   (d) otherwise one option named f.Name, one argument (f.Name, f.Type), one direct
 //       assignment to [f] carrying f's scalar constraints (op + first argument),
@@ -179,12 +181,18 @@ func deriveModel(schemas ast.Schemas, counters map[string]int) []expObject {
 					case isConcreteScalar(f.Type): // (a)
 						ef.allowed, ef.value, ef.rule = byConstant, f.Type.Scalar.Value, "a"
 					case f.Type.Kind == ast.KindRef && fstatus == "" && isConcreteScalar(fres):
-						if f.Required && !f.Type.Nullable && !fres.Nullable { // (b)
+						switch {
+						case !f.Required || f.Type.Nullable:
+							// "a constructor constant … when the schema fixes the field's value":
+							// an optional or nullable field may be absent / null, its value is
+							// not fixed, so it must be covered by an option (rule d).
+							ef.allowed, ef.rule = byOption, "d-unfixed-constant-ref"
+						case !fres.Nullable: // (b)
 							ef.allowed, ef.value, ef.rule = byConstant, fres.Scalar.Value, "b"
-						} else {
-							// Lenience: the statement is silent on whether the presence of an
-							// optional/nullable reference to a constant (or a reference to a
-							// nullable constant) is the user's choice — either is accepted.
+						default:
+							// Lenience: the statement is silent on a required, non-nullable
+							// reference to a constant object that is itself declared nullable —
+							// either coverage is accepted.
 							ef.allowed, ef.value, ef.rule = byConstant|byOption, fres.Scalar.Value, "b-silent"
 						}
 					case f.Type.Kind == ast.KindConstantRef: // (c)
